@@ -168,6 +168,46 @@ PROPS = {
                       "standard algorithm only by assumption on the RustCrypto cores (C13); std::path algebra (components, join, parent, equality) as "
                       "uninterpreted functions with three axioms; IndexMap assumed.",
     },
+    "C14": {
+        "units": ["plist"],
+        "design_ref": "DESIGN.md section 8 / C14",
+        "replay": "plist",
+        "level_text": "Unbounded proof on the real functions: Plist::from_bytes' scanner is proved to collect exactly `ranges(bytes)` - the "
+                      "'\\n'-separated segments containing a non-whitespace byte, in order, with or without a final newline (abstraction "
+                      "invariant lines ++ ranges(b,start) == ranges(b,0)) - and to push, for each, PlistEntry::from_bytes of exactly that "
+                      "slice (so each entry equals parsing that line alone; first failing line fails the whole parse). PlistEntry::from_bytes "
+                      "(macros expanded mechanically) is proved equal to entry_spec: the statement's command table with its "
+                      "required/optional/forbidden argument rule, argument = bytes after the first space with leading blanks stripped, "
+                      "UTF-8 required for name/dependency/mode/owner/group.",
+        "level_note": VERUS_TRUST + "OsStr/OsString as opaque byte containers (S-os shims), String::from_utf8, from_utf8_lossy (ASCII words decode "
+                      "to themselves and only to themselves), slice position; char::is_whitespace/u8::is_ascii (vstd / assumed scalar). "
+                      "`?` with an error conversion is written out as its defining match (rule D14) so that the Utf8 error kind is pinned.",
+    },
+    "C15": {
+        "units": ["plist"],
+        "design_ref": "DESIGN.md section 8 / C15",
+        "replay": "plist",
+        "level_text": "Unbounded proof on the real functions (iterator chains rewritten mechanically into indexed loops, closure bodies "
+                      "inlined): files/files_prefixed/install_cmds/uninstall_cmds return exactly kept_files / cmds of the entry sequence "
+                      "(flag automaton: an @ignore anywhere since the previous file drops the next file), prefixed with the most recent "
+                      "@cwd (+ '/' unless it ends in one); depends/build_depends/conflicts/pkgdirs/pkgrmdirs return every entry of "
+                      "their kind in order, pkgname/display the first, is_preserve iff an @option preserve exists; lemma_cmds_files: "
+                      "the file entries of both command lists are exactly files().",
+        "level_note": VERUS_TRUST + "rewrite rules D1-D4/D7 (loop forms of filter_map/filter/find_map/count, macro expansion) - the verified "
+                      "text is the rewritten form; OsString shims (push, to_os_string, to_string_lossy().ends_with('/')).",
+    },
+    "C18": {
+        "units": ["pkgname", "dewey", "summary"],
+        "always_devs": ["letter_value_is_ascii_code"],
+        "design_ref": "DESIGN.md section 8 / C18",
+        "replay": "pkgname",
+        "level_text": "Unbounded proof: PkgName::new (real code) returns exactly the split at the last '-' for every string "
+                      "(base ++ '-' ++ version == name), reports Some(N) for every version ending in nb<1..18 digits> and None when the "
+                      "version contains no 'nb'; lemma_tok_rev proves by induction over the tokeniser that this N is the revision "
+                      "vtok extracts, and DeweyVersion::new is proved equal to vtok (unit dewey).",
+        "level_note": VERUS_TRUST + "shims (assumed std contracts) for rsplit_once(char), rsplit_once(\"nb\"), parse::<i64>, String::from, "
+                      "Option::or, rfind(char); Summary::pkgbase()/pkgversion() are proved (unit summary) to return base_of/version_of of PKGNAME exactly when both parts are non-empty.",
+    },
     "C13": {
         "units": ["digest"],
         "design_ref": "DESIGN.md section 8 / C13",
@@ -258,6 +298,7 @@ NOT_APPLICABLE = {
 }
 for _p in ["C%02d" % i for i in range(1, 21)]:
     if _p not in PROPS and _p not in NOT_APPLICABLE:
-        NOT_APPLICABLE[_p] = "not yet under contract in this revision of /verif (work in progress; see DESIGN.md section 8)"
+        # every property is either claimed or listed with its reason; a silent fallback once hid three lost entries
+        raise RuntimeError("property %s is neither claimed in PROPS nor listed in NOT_APPLICABLE" % _p)
 
 ALL_IDS = ["C%02d" % i for i in range(1, 21)]
